@@ -914,9 +914,17 @@ impl SvgElement {
             "line" => &["x1", "y1", "x2", "y2"],
             _ => &["x", "y", "cx", "cy", "x1", "y1", "x2", "y2"],
         };
+        // (a line given by a start and a width / height has no end point until then)
+        let foreign_size: &[&str] = if self.name == "line" {
+            &["width", "height"]
+        } else {
+            &[]
+        };
         if let Some(attr) = ["x", "y", "cx", "cy", "x1", "y1", "x2", "y2"]
             .iter()
-            .find(|a| !own.contains(a) && self.has_attr(a))
+            .filter(|a| !own.contains(a))
+            .chain(foreign_size.iter())
+            .find(|a| self.has_attr(a))
         {
             return Err(SvgdxError::MissingBoundingBox(format!(
                 "'{attr}' position of <{}> not resolved yet",
